@@ -264,6 +264,49 @@ def fold_small_constants(fn: ast.AST) -> ast.AST:
     return out
 
 
+def inline_loop_exits(fn: ast.AST) -> ast.AST:
+    """A copy of `fn` in which, for every `while True:` loop that is directly followed by a `return <expr>` and has no else clause, each
+    `break` belonging to that loop is replaced by a copy of that return, and the trailing return is dropped.  `while True: ... break` +
+    `return X` and `while True: ... return X` are the same function; rules that model the loop's exits read them alike."""
+    import copy
+    fn = copy.deepcopy(fn)
+
+    def own_breaks(stmts: List[ast.stmt], ret: ast.Return) -> bool:
+        changed = False
+        for i, st in enumerate(stmts):
+            if isinstance(st, ast.Break):
+                stmts[i] = ast.copy_location(copy.deepcopy(ret), st)
+                changed = True
+            elif isinstance(st, (ast.For, ast.While, ast.FunctionDef, ast.AsyncFunctionDef, ast.ClassDef)):
+                continue
+            else:
+                for fld in ('body', 'orelse', 'finalbody'):
+                    sub = getattr(st, fld, None)
+                    if isinstance(sub, list) and sub and isinstance(sub[0], ast.stmt):
+                        changed |= own_breaks(sub, ret)
+                for h in getattr(st, 'handlers', []):
+                    changed |= own_breaks(h.body, ret)
+        return changed
+
+    def visit(stmts: List[ast.stmt]) -> None:
+        i = 0
+        while i < len(stmts):
+            st = stmts[i]
+            for fld in ('body', 'orelse', 'finalbody'):
+                sub = getattr(st, fld, None)
+                if isinstance(sub, list) and sub and isinstance(sub[0], ast.stmt):
+                    visit(sub)
+            for h in getattr(st, 'handlers', []):
+                visit(h.body)
+            if isinstance(st, ast.While) and isinstance(st.test, ast.Constant) and st.test.value is True and not st.orelse and i + 1 < len(stmts) and isinstance(stmts[i + 1], ast.Return):
+                if own_breaks(st.body, stmts[i + 1]):
+                    del stmts[i + 1]
+            i += 1
+    visit(fn.body)          # type: ignore[attr-defined]
+    ast.fix_missing_locations(fn)
+    return fn
+
+
 class Module:
     def __init__(self, name: str, path: str, relpath: str) -> None:
         self.name = name
